@@ -1264,11 +1264,15 @@ func (n *leaf) Validate(ctx ValidateCtx, path []string, p []string) error {
 	}
 	h, t := p[0], p[1:]
 	path = append(path, h)
+	// The value comes first in the path, so it is reported first
+	if err := n.Type().Validate(ctx, path, h); err != nil {
+		return err
+	}
 	// There should be nothing after the value
 	if len(t) != 0 {
 		return NewPathInvalidError(path, p[1])
 	}
-	return n.Type().Validate(ctx, path, h)
+	return nil
 }
 
 func (n *leaf) DefaultChildNames() []string {
@@ -1862,11 +1866,15 @@ func (n *leafList) Validate(ctx ValidateCtx, path []string, p []string) error {
 	}
 	h, t := p[0], p[1:]
 	path = append(path, h)
+	// The value comes first in the path, so it is reported first
+	if err := n.typ.Validate(ctx, path, h); err != nil {
+		return err
+	}
 	// There should be nothing after the value
 	if len(t) != 0 {
 		return NewPathInvalidError(path, p[1])
 	}
-	return n.typ.Validate(ctx, path, h)
+	return nil
 }
 
 func (n *leafList) Child(name string) Node {
